@@ -1,4 +1,4 @@
-use bytes::Bytes;
+use bytes::{Bytes, BytesMut};
 use core::pin::Pin;
 use core::task::{Context, Poll};
 use futures_util::{ready, stream::Stream, StreamExt};
@@ -47,7 +47,16 @@ impl HttpRangeRequest {
             format!("bytes={}-{}", offset, end_offset),
         );
         let response = request.send().await?;
-        Ok(response.bytes().await?)
+        // Only buffer what was asked for, whatever the server sends.
+        let mut stream = response.bytes_stream();
+        let mut buf = BytesMut::new();
+        while (buf.len() as u64) < size {
+            match stream.next().await {
+                Some(item) => buf.extend_from_slice(&item?),
+                None => break,
+            }
+        }
+        Ok(buf.freeze())
     }
 
     pub async fn single(mut self) -> Result<Bytes, HttpReaderError> {
@@ -99,7 +108,11 @@ impl HttpRangeRequest {
                     Err(err) => return Poll::Ready(Some(Err(HttpReaderError::from(err)))),
                 },
                 RequestState::Stream(stream) => match ready!(stream.poll_next_unpin(cx)) {
-                    Some(Ok(item)) => {
+                    Some(Ok(mut item)) => {
+                        // Never hand out more than what was requested, whatever the server sends.
+                        if item.len() as u64 > self.size {
+                            item.truncate(self.size as usize);
+                        }
                         self.offset += item.len() as u64;
                         self.size -= item.len() as u64;
                         return Poll::Ready(Some(Ok(item)));
